@@ -298,9 +298,9 @@ func makeField(v reflect.Value, params fieldParameters) (encoder, error) {
 					if err != nil {
 						return nil, fmt.Errorf("iterate subtype error")
 					}
-
-					berType.value = structEncoder(s)
 				}
+				// also when every member is OPTIONAL and absent (an empty SEQUENCE/SET)
+				berType.value = structEncoder(s)
 			}
 		case reflect.Slice:
 			tag.class = ClassUniversal
@@ -329,6 +329,9 @@ func makeField(v reflect.Value, params fieldParameters) (encoder, error) {
 
 			berType.value = stringEncoder(v.String())
 		}
+	}
+	if berType.value == nil {
+		return nil, fmt.Errorf("ber: cannot marshal a value of type %s", fieldType.String())
 	}
 	tag.len = int64(berType.value.Len())
 
